@@ -26,6 +26,8 @@ ENCLOSING = {
     "map": "{{{0} 1 {1} 2}}",
     "set": "(count #{{{0} {1}}})",
     "recur": "(loop* [a nil b nil n 0] (if (< n 1) (recur {0} {1} (inc n)) [a b]))",
+    "fn-recur": "((fn* [a b n] (if (< n 1) (recur {0} {1} (inc n)) [a b])) nil nil 0)",
+    "fn-recur-under-let": "((fn* [a b n] (let* [m n] (if (< m 1) (recur {0} {1} (inc n)) [a b]))) nil nil 0)",
     "interop-call": "(.get {{:q 5}} {0} {1})",
     "let-inits": "(let* [a {0} b {1} c {2}] [a b c])",
     "loop-inits": "(loop* [a {0} b {1}] [a b])",
@@ -88,8 +90,15 @@ def run(rep, tier, seed):
     if quick:
         keep = [b for b in bs if b[0].startswith("extra") or b[0].endswith("all-markers")]
         rest = [b for b in bs if b not in keep]
-        rnd.shuffle(rest)
-        bs = keep + rest[:50]
+        # stratified: every enclosing form appears with 3 seeded (position, compound kind) combinations
+        by_enc = {}
+        for b in rest:
+            by_enc.setdefault(b[0].split("/")[0], []).append(b)
+        picked = []
+        for enc in sorted(by_enc):
+            rnd.shuffle(by_enc[enc])
+            picked += by_enc[enc][:3]
+        bs = keep + picked
     specs = []
     for name, body in bs:
         src = f"(fn* [p0 p1 p2] {body})"
